@@ -260,12 +260,12 @@ class Image(Traversable):
             if marked[name]:
                 continue
 
-            match = self._STEREO_FILENAME.match(name)
+            match = self._split_stereo_name(name)
             if match:
-                alternate_ending = "R" if match.group(3) == "L" else "L"
+                alternate_ending = "R" if match[2] == "L" else "L"
                 alternate_name = "".join((
-                    match.group(1), 
-                    match.group(2), 
+                    match[0], 
+                    match[1], 
                     alternate_ending
                 ))
                 if alternate_name in sample_dict.keys():
@@ -277,7 +277,7 @@ class Image(Traversable):
                         pairs = [alternate_sample, sample]
 
                     # the common stem may already be a sibling's name
-                    stem = match.group(1)
+                    stem = match[0]
                     new_name = stem
                     count = 1
                     while new_name in used_names:
@@ -321,16 +321,35 @@ class Image(Traversable):
 
 
     _STEREO_FILENAME = re.compile(r"(.*?)([\s-]+)(L|R)\s*$")
+    def _split_stereo_name(
+            self, 
+            name: str
+    ) -> Optional[Tuple[str, str, str]]:
+        # the groups of _STEREO_FILENAME.match(name), found in one pass: the 
+        # expression backtracks quadratically over runs of blanks and hyphens
+        end = len(name.rstrip())
+        if end <= 0 or name[end - 1] not in ("L", "R"):
+            return None
+        start = end - 1
+        while start > 0 and (
+            name[start - 1] == "-" or name[start - 1].isspace()
+        ):
+            start -= 1
+        if start == end - 1 or "\n" in name[:start]:
+            return None
+        return name[:start], name[start:end - 1], name[end - 1]
+
+
     def _add_count_to_name(self, name: str, count: int) -> str:
         count_str = "(" + str(count) + ")"
         delim = " "
         tokens = [name, count_str]
-        match = self._STEREO_FILENAME.match(name)
+        match = self._split_stereo_name(name)
         if match:
             tokens = [
-                match.group(1),
+                match[0],
                 count_str,
-                match.group(3)
+                match[2]
             ]
         new_name = delim.join(tokens)
         return new_name
